@@ -11,7 +11,7 @@ Because the functions are interpreted rather than pattern-matched, refactorings
 """
 from .core import AnalysisError
 from .facts import get_facts
-from .absint import (Interp, Obj, Native, Unknown, InterpRaise, Uninterpretable, FuncVal)
+from .absint import (Interp, Obj, Native, NativeModule, Unknown, InterpRaise, Uninterpretable, FuncVal)
 
 LINTER = 'supp/linter.py'
 ASSIST = 'supp/assistant.py'
@@ -451,7 +451,12 @@ class AssistStubs(Stubs):
                                 get_nmodule=Native('get_nmodule', self._get_nmodule))
         self.packages = {}
         self.modules = {}
-        self.scope = Unknown('scope')
+        self.scope = self.marked_scope()
+
+    def marked_scope(self):
+        top = self.obj('SourceScope', 'scope of the marked source', source=self.obj(None, 'source', filename='/p/this.py'))
+        top.attrs['top'] = top
+        return top
 
     def _finder(self, fname, attr):
         self.calls.append((fname,))
@@ -482,6 +487,7 @@ class AssistStubs(Stubs):
         return self.modules[a[0]]
 
     def reset(self):
+        self.scope = self.marked_scope()
         self.marked_import = self.marked_name = self.marked_attr = self.value = None
         self.calls = []
         self.decls = []
@@ -586,7 +592,7 @@ def _assist_model(repo, order='fwd'):
 
     # --- name branch: proposals are the keys of names_at(cursor) of the marked read's region ---------------------------
     asked = []
-    table = {'zeta': 1, 'mid' + M + 'dle': 2, 'alpha': 3, 'middle': 4, 'beta': 5, 'Beta': 6, 'ALPHA': 7}
+    table = {'zeta': 1, 'mid' + M + 'dle': 2, 'alpha': 3, 'middle': 4, 'beta': 5, 'Beta': 6, 'ALPHA': 7, M: 8}
     st.reset()
     st.marked_name = st.name_node('mi' + M, table, asked)
     left = 'x = mi'
@@ -596,7 +602,7 @@ def _assist_model(repo, order='fwd'):
         rec('shape', 'name branch returns (prefix, list)', False, 'assist on a bare name %s' % (exc or 'returns %r' % (r,)))
     else:
         got = r[1]
-        rec('source', 'name branch proposes the visible names at the cursor', set(unm(x, M) for x in got) == set(want)
+        rec('source', 'name branch proposes the visible names at the cursor', set(unm(x, M) for x in got) - {''} == set(want)
             and [tuple(a) for a in asked] == [(2, len(left))],
             'for a cursor at the end of a bare name the proposals must be the keys of names_at(cursor position) of the '
             'marked read\'s own region: asked names_at%s, proposed %s' % (asked, got), 'assist: marked.flow.names_at(position)')
@@ -605,11 +611,14 @@ def _assist_model(repo, order='fwd'):
             'identifier contains the cursor collapses with its plain form)' % got)
         rec('clean', 'name branch carries no cursor marker', not any(M in x for x in got),
             'proposals %s contain the internal cursor marker' % got, 'no marker in proposals')
+        rec('ident', 'name branch proposes identifiers only', all(isinstance(x, str) and x.isidentifier() for x in got),
+            'every proposal must be an identifier; a binding whose whole identifier is the cursor (the name being typed) leaves an '
+            'empty string after un-marking: %s' % got, 'proposals are identifiers')
 
     # --- attribute branch -----------------------------------------------------------------------------------------------
-    for label, container in (('list with duplicates', ['beta', 'alpha', 'beta', 'x' + M + 'y', 'xy', 'Alpha']),
-                             ('dict', {'beta': 1, 'alpha': 2, 'x' + M + 'y': 3, 'Beta': 4}),
-                             ('set', {'beta', 'alpha', 'x' + M + 'y', 'Alpha', 'BETA'})):
+    for label, container in (('list with duplicates', ['beta', 'alpha', 'beta', 'x' + M + 'y', 'xy', 'Alpha', M]),
+                             ('dict', {'beta': 1, 'alpha': 2, 'x' + M + 'y': 3, 'Beta': 4, M: 5}),
+                             ('set', {'beta', 'alpha', 'x' + M + 'y', 'Alpha', 'BETA', M})):
         st.reset()
         vnode = st.obj(None, 'expr')
         vnode.astcls = 'Name'
@@ -628,7 +637,7 @@ def _assist_model(repo, order='fwd'):
         got = r[1]
         ev = [c[1] for c in st.calls if c[0] == 'evaluate']
         rec('source', 'attribute branch proposes attr_list of the evaluated expression [%s]' % label,
-            set(unm(x, M) for x in got) == set(unm(x, M) for x in container) and ev == [vnode],
+            set(unm(x, M) for x in got) | {''} == set(unm(x, M) for x in container) | {''} and ev == [vnode],
             'for a cursor after `expr.` the proposals must be the attributes of evaluate(expr): evaluated %s, proposed %s' % (ev, got),
             'assist: evaluate(attr.value).attr_list(ctx)')
         rec('sorted', 'attribute branch sorted [%s]' % label, got == sorted(got), 'proposals %s are not sorted' % got)
@@ -636,6 +645,9 @@ def _assist_model(repo, order='fwd'):
             len(got) == len(set(got)), 'proposals %s contain duplicates' % got)
         rec('clean', 'attribute branch carries no cursor marker [%s]' % label, not any(M in x for x in got),
             'proposals %s contain the internal cursor marker' % got)
+        rec('ident', 'attribute branch proposes identifiers only [%s]' % label, all(isinstance(x, str) and x.isidentifier() for x in got),
+            'every proposal must be an identifier; `self.| = 1` records an attribute named by the bare cursor marker, which un-marks '
+            'to the empty string: %s' % got)
     st.reset()
     vnode = st.obj(None, 'expr')
     anode = st.obj(None, 'marked attribute', value=vnode, attr=M)
@@ -1061,6 +1073,20 @@ def multiname_order_model(repo):
             out.append(('order', 'alternatives given as %s' % '/'.join(x.label for x in perm), got == alts,
                         'the alternatives of a multiply-bound name must be listed in source order whatever order the regions '
                         'contribute them in; got %s' % (got,), 'alt_names of %s = source order' % '/'.join(x.label for x in perm)))
+        for first in (True, False):
+            inner = mk([alts[1], alts[0]])
+            before = list(st.it.getattr(inner, 'alt_names'))
+            try:
+                outer = mk([inner, alts[2], alts[1]] if first else [alts[2], inner, alts[1]])
+                got2 = st.it.getattr(outer, 'alt_names')
+            except InterpRaise as e:
+                got2 = str(e)
+            after = list(st.it.getattr(inner, 'alt_names'))
+            out.append(('order', 'a union nested %s in another keeps its own alternatives' % ('first' if first else 'second'),
+                        got2 == alts and after == before and st.it.getattr(inner, 'alt_names') is not got2,
+                        'building a union from [a union of two, a third binding] must not change the nested union (it is shared with '
+                        'other regions): its alternatives were %s and are %s afterwards; the outer union lists %s' % (before, after, got2),
+                        'nested unions are copied, not extended in place'))
         try:
             got = st.it.getattr(mk([alts[2], mk([alts[1], alts[0]]), alts[1]]), 'alt_names')
         except InterpRaise as e:
@@ -1498,20 +1524,42 @@ def _client_model(repo):
 
     # ---- launching: prepare() / run() / _threaded_run() with a modelled starter thread and launcher ------------------------
     def launcher(outcomes, eager=False):
-        """An Environment whose _run is a stub (each call takes the next outcome: True = connects, False = raises) and whose
-        starter thread runs its target when it is joined (in flight until then) or, with eager, when it is started."""
+        """An Environment whose process launcher and connector are stubs: Popen records a launch (or fails), Client(addr) follows
+        the script of the launch it belongs to (the socket is not there yet / refused once / never comes up / ok); time is a
+        scripted clock.  The starter thread runs its target when it is joined (in flight until then) or, with eager, when started."""
         env = it.call(env_cls, [], {})
-        state = {'launches': 0, 'threads': [], 'outcomes': list(outcomes), 'conns': []}
+        state = {'launches': 0, 'threads': [], 'outcomes': list(outcomes), 'conns': [], 'script': [], 'clock': 0.0, 'connected': 0}
+        scripts = {True: ['ENOENT', 'ok'], 'refused-once': ['ENOENT', 'ECONNREFUSED', 'ok'], 'never': ['ENOENT'] * 200}
 
-        def _run(it_, a, k):
+        def Popen(it_, a, k):
             state['launches'] += 1
-            ok = state['outcomes'].pop(0) if state['outcomes'] else True
-            if not ok:
-                raise InterpRaise('OSError', 'launch failed')
-            conn, cs = st.conn([Packed(('answer %d' % state['launches'], True))] * 3)
+            oc = state['outcomes'].pop(0) if state['outcomes'] else True
+            if oc is False:
+                raise InterpRaise('OSError', 'launch failed', None, {'errno': 11})
+            state['script'] = list(scripts[oc])
+            return st.obj(None, 'server process %d' % state['launches'])
+
+        def Client(it_, a, k):
+            step = state['script'].pop(0) if state['script'] else 'ENOENT'
+            if step == 'ENOENT':
+                raise InterpRaise('FileNotFoundError', 'No such file or directory', None, {'errno': 2})
+            if step == 'ECONNREFUSED':
+                raise InterpRaise('ConnectionRefusedError', 'Connection refused', None, {'errno': 111})
+            state['connected'] += 1
+            conn, cs = st.conn([Packed(('answer %d' % state['connected'], True))] * 3)
             state['conns'].append(cs)
-            env.attrs['conn'] = conn
-        env.attrs['_run'] = Native('_run', _run)
+            return conn
+
+        def sleep(it_, a, k):
+            state['clock'] += a[0] if a and isinstance(a[0], (int, float)) else 1.0
+        it.import_overrides[('subprocess', 'Popen')] = Native('Popen', Popen)
+        it.import_overrides[('subprocess', 'PIPE')] = -1
+        it.import_overrides[('multiprocessing.connection', 'Client')] = Native('Client', Client)
+        it.import_overrides[('multiprocessing.connection', 'arbitrary_address')] = Native('arbitrary_address', lambda i2, a2, k2: 'ADDR')
+        renv['time'] = st.obj(None, 'module time', time=Native('time', lambda i2, a2, k2: state['clock']), sleep=Native('sleep', sleep))
+        import os as _os
+        renv['os'] = st.obj(None, 'module os', path=NativeModule('path', _os.path), environ={'PATH': '/bin'})
+        renv['__file__'] = '/p/supp/remote.py'
 
         def Thread(it_, a, k):
             target = k.get('target') or (a[0] if a else None)
@@ -1549,10 +1597,20 @@ def _client_model(repo):
         invoke(env, 'prepare', [])
         r, exc = invoke(env, '_call', ['ping'])
         rec('launch', 'a failed background launch is made up for by the first call (%s)' % ('starter finished' if eager else 'starter in flight'),
-            exc is None and r == 'answer 2' and stt['launches'] == 2,
+            exc is None and r == 'answer 1' and stt['launches'] == 2,
             'when the background launch fails, the first call must launch synchronously and be answered - no caller may see an '
             'exception caused by the start-up handshake; launches %d, result %r %s' % (stt['launches'], r, exc or ''),
             'starter failed -> the call launches itself')
+    env, stt = launcher(['refused-once'])
+    r, exc = invoke(env, '_call', ['ping'])
+    rec('launch', 'a connection refused while the server is binding is retried', exc is None and r == 'answer 1' and stt['launches'] == 1,
+        'a connect attempt that is refused because the listener has bound but not yet listened must be retried like a missing '
+        'socket; launches %d, result %r %s' % (stt['launches'], r, exc or ''), 'connect errors during start-up are retried until the time-out')
+    env, stt = launcher(['never'])
+    r, exc = invoke(env, '_call', ['ping'])
+    rec('launch', 'a server that never comes up ends in the launch time-out', exc is not None and exc.exc_name == 'Exception'
+        and stt['launches'] == 1 and stt['clock'] > 5, 'when the server never accepts, the call must give up after the time-out with the '
+        'launch error (not spin for ever, not launch again); launches %d, clock %.1f, %s' % (stt['launches'], stt['clock'], exc or r))
     env, stt = launcher([True])
     invoke(env, 'prepare', [])
     invoke(env, 'prepare', [])
@@ -1709,18 +1767,22 @@ PROJECT = 'supp/project.py'
 
 
 def cache_history_model(repo, depth=3):
-    """Project.get_module / check_changes / SourceModule.changed interpreted on a modelled file system with scripted
-    modification times, over every history of length <= depth built from: edit a module (new, larger mtime), restore an
-    older revision (smaller mtime), request a module inside a change-checking context, a request that fails after it
-    validated its module, creation of a module that did not exist.  After every history each module requested inside a fresh
-    context must have been loaded from the current state of its file: its recorded mtime is the file's current mtime."""
+    """Project.get_module / check_changes / SourceModule.changed / SourceModule.scope interpreted on a modelled file system with
+    scripted modification times and contents, over every history of length <= depth built from: edit a module (new content, mtime
+    a fraction of a second later), restore an older revision (old content, older mtime), request a module inside a
+    change-checking context, a request that fails after it validated its module, creation of a module that did not exist.  After
+    every history the analysis served for a module requested inside a fresh context must be the analysis of the file's current
+    content (what a newly created project would compute)."""
     def build():
         import itertools
         facts = get_facts(repo)
         it = Interp(repo, facts)
+        it.memoise_cached = True
         it.module_env(PROJECT)['SUFFIXES'] = ['.py']
         it.sys_path = []
         it.sys_modules = {}
+        # the analysis of a module is stood for by the text it was computed from
+        it.module_env('supp/module.py')['extract_scope'] = Native('extract_scope', lambda i2, a, k: ('analysis of', a[0].attrs.get('orig_source')))
         proj_cls = facts.classes.get('Project')
         if proj_cls is None:
             raise AnalysisError('Project vanished')
@@ -1730,15 +1792,15 @@ def cache_history_model(repo, depth=3):
         n = 0
 
         def request(p, name, fail=False):
-            """-> loaded module's mtime | 'ImportError'"""
+            """-> the analysis served | exception name"""
             cm = it.call(it.getattr(p, 'check_changes'), [], {})
             it.call(it.getattr(cm, '__enter__'), [], {})
             err = None
             try:
                 m = it.call(it.getattr(p, 'get_module'), [name], {})
+                r = it.getattr(m, 'scope')
                 if fail:
                     raise InterpRaise('SyntaxError', 'the request fails after its module was validated')
-                r = m.attrs.get('mtime') if isinstance(m, Obj) else m
             except InterpRaise as e:
                 err = e
                 r = e.exc_name
@@ -1752,31 +1814,38 @@ def cache_history_model(repo, depth=3):
                 n += 1
                 it.reset_path([])
                 it.fs = {'<S>/a.py', '<S>/b.py'}
-                it.mtimes = {'<S>/a.py': 100, '<S>/b.py': 100}
-                clock = [100]
+                it.mtimes = {'<S>/a.py': 1000.25, '<S>/b.py': 1000.25}
+                it.files = {'<S>/a.py': 'a: revision 0', '<S>/b.py': 'b: revision 0'}
+                rev = {'<S>/a.py': 0, '<S>/b.py': 0}
+                clock = [1000.25]
                 try:
                     p = it.instantiate(proj_cls, [['<S>']], {})
                     request(p, 'a')
                     request(p, 'b')        # both modules are cached by the long-lived project
-                    got = want = None
                     for op in hist:
                         kind, _, mod = op.rpartition(' ')
                         path = '<S>/%s.py' % mod
                         if kind == 'edit':
-                            clock[0] += 10
+                            clock[0] += 0.25          # saved again within the same second
+                            rev[path] += 1
                             it.mtimes[path] = clock[0]
+                            it.files[path] = '%s: revision %d' % (mod, rev[path])
                         elif kind == 'restore':
-                            it.mtimes[path] = it.mtimes[path] - 7
+                            rev[path] += 1
+                            it.mtimes[path] = it.mtimes[path] - 0.125
+                            it.files[path] = '%s: restored (%d)' % (mod, rev[path])
                         elif kind == 'create':
                             if path not in it.fs:
-                                clock[0] += 10
+                                clock[0] += 0.25
                                 it.fs.add(path)
                                 it.mtimes[path] = clock[0]
+                                it.files[path] = '%s: revision 0' % mod
+                                rev[path] = 0
                         elif kind == 'failing request':
                             request(p, mod, fail=True)
                         elif kind == 'request':
                             got = request(p, mod)
-                            want = it.mtimes.get(path, 'ImportError') if path in it.fs else 'ImportError'
+                            want = ('analysis of', it.files[path]) if path in it.fs else 'ImportError'
                             if got != want:
                                 bad.append((hist, op, got, want))
                                 break
@@ -1784,13 +1853,75 @@ def cache_history_model(repo, depth=3):
                     raise AnalysisError('the module cache is outside the interpretable subset: %s' % e)
                 except InterpRaise as e:
                     bad.append((hist, 'exception', '%s: %s' % (e.exc_name, e.msg), None))
-        it.mtimes = None
+        it.mtimes = it.files = None
         bad.sort(key=lambda b: len(b[0]))
         out.append(('history', 'every request sees the current state of its module (histories up to length %d)' % depth, not bad,
-                    'after the history %s the request `%s` was served a module loaded at mtime %s while the file is at %s: a '
-                    'long-lived project answers from a stale analysis where a new project would read the file'
-                    % ((' ; '.join(bad[0][0]), bad[0][1], bad[0][2], bad[0][3]) if bad else ('', '', '', '')),
-                    '%d histories: the served module always carries the current mtime' % n))
+                    'after the history %s the request `%s` was served %s while a new project would compute %s: a long-lived project '
+                    'answers from a stale analysis' % ((' ; '.join(bad[0][0]), bad[0][1], bad[0][2], bad[0][3]) if bad else ('', '', '', '')),
+                    '%d histories: the served analysis is always that of the current file content' % n))
         out.append(('history-count', 'histories explored', n >= 100, 'only %d histories' % n, None))
         return out
     return repo.memo('cache-history-model-%d' % depth, build)
+
+
+def descriptor_model(repo):
+    """FuncScope.resolve interpreted on stub method scopes: a method decorated with `property` or with a class that provides
+    __get__ anywhere along its MRO is read as the value its getter returns; any other function is the function object."""
+    def build():
+        st = Stubs(repo)
+        it = st.it
+        out = []
+        SCOPE_REL = 'supp/scope.py'
+        env = it.module_env(SCOPE_REL)
+        made = []
+
+        def FuncObject(it_, a, k):
+            o = st.obj('FuncObject', 'function object', call=Native('call', lambda i2, a2, k2: 'VALUE RETURNED BY THE GETTER'))
+            made.append(o)
+            return o
+        saved = env.get('FuncObject')
+        env['FuncObject'] = Native('FuncObject', FuncObject)
+        try:
+            cls_scope = st.obj('ClassScope', 'class body')
+            mod_scope = st.obj('SourceScope', 'module')
+            prop = st.obj('RuntimeName', 'builtin property', name='property', is_builtin=True)
+            other_builtin = st.obj('RuntimeName', 'builtin staticmethod', name='staticmethod', is_builtin=True)
+            own = st.obj('ClassObject', 'descriptor class defining __get__', _attrs={'__get__': 1, '__init__': 2},
+                         scope=st.obj('ClassScope', 'its body', locals={'__get__', '__init__'}))
+            inherited = st.obj('ClassObject', 'descriptor class inheriting __get__', _attrs={'__get__': 1, 'extra': 2},
+                               scope=st.obj('ClassScope', 'its body', locals={'extra'}))
+            plain = st.obj('ClassObject', 'decorator class without __get__', _attrs={'__call__': 1},
+                           scope=st.obj('ClassScope', 'its body', locals={'__call__'}))
+            cases = [('@property', cls_scope, [prop], True), ('a descriptor class defining __get__', cls_scope, [own], True),
+                     ('a descriptor class inheriting __get__ from a base', cls_scope, [inherited], True),
+                     ('a decorator class without __get__', cls_scope, [plain], False), ('@staticmethod', cls_scope, [other_builtin], False),
+                     ('no decorator', cls_scope, [], False), ('@property on a module-level function', mod_scope, [prop], False),
+                     ('a plain decorator followed by @property', cls_scope, [plain, prop], True)]
+            for label, parent, decos, want_value in cases:
+                vals = {}
+                nodes = []
+                for i, d in enumerate(decos):
+                    nd = st.obj(None, 'decorator %d' % i)
+                    nd.astcls = 'Name'
+                    vals[nd.oid] = d
+                    nodes.append(nd)
+                ctx = st.obj(None, 'ctx', evaluate=Native('evaluate', lambda i2, a2, k2, _v=vals: _v.get(a2[0].oid)))
+                ms = st.obj('FuncScope', 'method', parent=parent, decorator_list=nodes, name='meth')
+                del made[:]
+                try:
+                    r = it.call(it.getattr(ms, 'resolve'), [ctx], {})
+                    got_value = r == 'VALUE RETURNED BY THE GETTER'
+                    ok = got_value == want_value and (want_value or (made and r is made[-1]))
+                    detail = 'the getter\'s value' if got_value else repr(r)
+                except InterpRaise as e:
+                    ok, detail = False, 'raises %s' % e
+                out.append(('descriptor', 'a method under %s resolves to %s' % (label, 'its getter\'s value' if want_value else 'the function'),
+                            ok, 'a function in a %s decorated with %s must resolve to %s; got %s'
+                            % ('class' if parent is cls_scope else 'module', label, 'the value its getter returns (attribute access '
+                               'through the descriptor)' if want_value else 'the function object', detail),
+                            '%s -> %s' % (label, 'getter value' if want_value else 'function')))
+        finally:
+            if saved is not None:
+                env['FuncObject'] = saved
+        return out
+    return repo.memo('descriptor-model', build)
